@@ -127,9 +127,7 @@ namespace Givaro {
 #  ifdef __GIVARO_DEBUG
         int32_t sgn_this = (*this>0)?1:-1;
 #  endif
-        int32_t sgn = Givaro::sign(l);
         mpz_tdiv_r_ui( (mpz_ptr)&(gmp_rep), (mpz_ptr)&gmp_rep, std::abs(l));
-        if (sgn <0) mpz_neg( (mpz_ptr)&gmp_rep, (mpz_ptr)&(gmp_rep) );
 
 #  ifdef __GIVARO_DEBUG
         assert((*this<GIVABS(l)) && (*this> -GIVABS(l)) && (sgn_this*(*this).priv_sign()>=0)) ;
